@@ -116,7 +116,7 @@ def run(tier):
                        'types with full state comparison after each step; numeric layer: random reals, pure operator vs native operation and compound '
                        'vs pure, bit for bit; twins: operator vs constructor bit for bit')
     chk.sample(bev[0])
-    chk.sample({'behaviour': [{k: v for k, v in s.items() if k in ('act', 'dst', 'a', 'b', 'n')} for s in bs[0][1]]} if bs else {})
+    chk.sample({'behaviour': [{k: v for k, v in s.items() if k in ('act', 'dst', 'a', 'b', 'n')} for s in bs[0][2]]} if bs else {})
     chk.sample(ar[0] if ar else {})
     chk.assumptions += ['IEEE-754 arithmetic with -fno-fast-math -ffp-contract=off: native + - * / are correctly rounded',
                         'math functions: every dimensionless scalar type for which std::sqrt/std::exp are callable, 8 functions, bitwise against the same function of Value()']
